@@ -599,9 +599,9 @@ session (`SetGasPrice`: `nil` for 0, else `v`); `NewEthAdaptor` stores the confi
 `Connect` builds every transactor (RPC and websocket alike) from `e.key`, `e.chainID`, `e.gasLimit` and, if
 non-zero, `e.gasPrice`. -/
 theorem config_shape_matches_model :
-    skeletonSetGasLimit = ["0 e.gasLimit = gasLimit.Uint64()", "0 for",
+    skeletonSetGasLimit = ["0 e.gasLimit = gasLimit.Uint64()", "0 for i := 0; i < len(e.proxies) && i < len(e.crs); i++",
       "1 e.proxies[i].TransactOpts.GasLimit = gasLimit.Uint64()", "1 e.crs[i].TransactOpts.GasLimit = gasLimit.Uint64()"] ∧
-    skeletonSetGasPrice = ["0 e.gasPrice = gasPrice.Uint64()", "0 for",
+    skeletonSetGasPrice = ["0 e.gasPrice = gasPrice.Uint64()", "0 for i := 0; i < len(e.proxies) && i < len(e.crs); i++",
       "1 if gasPrice.Cmp(big.NewInt(0)) == 0",
       "2 e.proxies[i].TransactOpts.GasPrice = nil", "2 e.crs[i].TransactOpts.GasPrice = nil",
       "1 else",
@@ -634,6 +634,13 @@ UNCHANGED to `chain.RegisterGroupPubKey`, whose call data `registerGroupPubKey_d
 byte by byte.  `reportQueryResult`: `UpdateRandomness` iff the query type is `TrafficSystemRandom`, else `DataReturn`,
 with the signature unchanged. -/
 theorem group_key_glue_matches_model :
+    -- decodePubKey, the WHOLE function (seeded change C19g-2: `bytes.TrimLeft(pubKeyMar, "\x01")` + derived width):
+    -- fixed offsets 32*i+1 : 32*i+33 for i = 0..3 behind the length guard, exactly `ReqLoop.decodePubKey`
+    decodePubKeyBody =
+     ["func(pubKey kyber.Point) (pubKeyCoor [4]*big.Int, err error)",
+      "0 pubKeyMar, err := pubKey.MarshalBinary()", "0 if err != nil", "1 return",
+      "0 if len(pubKeyMar) < 32*4+1", "1 err = errors.New(\"public key is the point at infinity\")", "1 return",
+      "0 for i := 0; i < 4; i++", "1 pubKeyCoor[i] = new(big.Int).SetBytes(pubKeyMar[32*i+1 : 32*i+33])", "0 return"] ∧
     genGroupKeyGlue =
      ["out = make(chan [5]*big.Int)",
       "secShare, err := dkg.DistKeyShare()",
